@@ -111,9 +111,25 @@ def _repo_frame(tb):
 _counter = [0]
 
 
+def trim_library_caches(limit=20000):
+    """The installed TatSu keeps every argument binding of every parse in an
+    unbounded class-level dictionary (tatsu.util.typetools.BoundCallable.
+    _BIND_CACHE, ~75 kB per parsed cell): a process that parses 10^5 cells
+    grows to several GB.  It is a pure cache; the harness empties it now and
+    then (sandbox hygiene like the shim, no effect on results)."""
+    try:
+        from tatsu.util import typetools
+        cache = typetools.BoundCallable._BIND_CACHE
+        if len(cache) > limit:
+            cache.clear()
+    except Exception:
+        pass
+
+
 def convert(deck_text, argv=(), encoding='utf-8', keep=False, name=None):
     """Convert ``deck_text`` in-process; returns a :class:`Result`."""
     mods = load_repo()
+    trim_library_caches()
     t4main = mods['main']
     d = scratch_dir()
     _counter[0] += 1
@@ -205,6 +221,7 @@ def convert_path(ipath, opath, argv=(), default_output=False):
     watches the input file and its directory).  With ``default_output`` no
     -o is given and ``opath`` is where the converter is expected to write."""
     mods = load_repo()
+    trim_library_caches()
     t4main = mods['main']
     res = Result()
     buf = io.StringIO()
